@@ -1151,6 +1151,14 @@ func TestVerif(t *testing.T) {
 			b, _ := json.Marshal(sc.Stress)
 			fmt.Printf("replay of the real-threads configuration %s\n", b)
 			for n := 0; n < 10; n++ {
+				if sc.Stress.Entrants > 0 {
+					f, bst := stressBroadcastParked(*sc.Stress, 1500*time.Millisecond)
+					if f != nil {
+						fmt.Printf("  FAILS (slice %d, round %d) %s: %s\n", n, bst.rounds, f.kind, f.what)
+						os.Exit(1)
+					}
+					continue
+				}
 				f, st := stressCond(*sc.Stress, 1500*time.Millisecond)
 				if f != nil {
 					fmt.Printf("  FAILS (slice %d, after %d Signal calls, %d Broadcast calls, %d Wait returns) %s: %s\n", n, st.signals, st.broadcasts, st.waitsNil+st.waitsErr, f.kind, f.what)
@@ -1206,8 +1214,10 @@ func TestVerif(t *testing.T) {
 	// real threads: overlapping Signal / Broadcast / Wait
 	if env.Thorough() || env.Deep {
 		stressCondPhase(res, 10*time.Second)
+		stressBroadcastPhase(res, 8*time.Second)
 	} else {
 		stressCondPhase(res, 1200*time.Millisecond)
+		stressBroadcastPhase(res, 1200*time.Millisecond)
 	}
 	for _, f := range vlib.CorpusFiles(env.Corpus, ".scn") {
 		b, err := os.ReadFile(f)
